@@ -254,7 +254,10 @@ class AsyncFIXConnection:
                         " any additional messages before acceptor responce."
                     )
 
-        if msg.msg_type == FMsg.TESTREQUEST and self._test_req_id is None:
+        if msg.msg_type == FMsg.TESTREQUEST and (
+            self._test_req_id is None
+            or msg.get(FTag.TestReqID, None) != str(self._test_req_id)
+        ):
             raise FIXConnectionError(
                 "You must rend TestRequest() message via self.send_test_req() method in"
                 " order to get valid response handling"
